@@ -36,7 +36,7 @@ def validate(ctx, tracefile):
 def produce(ctx, tag):
     q = ctx.tier == "quick"
     beh = os.path.join(ctx.work, f"{tag}_beh.ndjson")
-    ctx.tlc("EngineGen", "EngineGenSim.cfg", constants=dict(OutFile=json.dumps(beh)), timeout=1200, simulate=f"num={40 if q else 600}", depth=80, workers=8)
+    ctx.tlc("EngineGen", "EngineGenSim.cfg", constants=dict(OutFile=json.dumps(beh)), timeout=1200, simulate=f"num={40 if q else 5000}", depth=80, workers=8)
     n = vlib.NCPU
     parts = []
 
